@@ -47,10 +47,12 @@ def children_of(v):
     d = getattr(v, '__dict__', None)
     if isinstance(d, dict):
         out = []
-        prefix = '_' + t.__name__
+        # a private name (__x written inside class K) is stored as _K__x and may be shown either way; a name that merely
+        # starts like that (_K_id, _Ks) is nobody's private name and is shown as it is
+        prefix = '_' + t.__name__.lstrip('_')
         for k, c in d.items():
             names = {k}
-            if isinstance(k, str) and k.startswith(prefix):
+            if isinstance(k, str) and k.startswith(prefix + '__') and not k.endswith('__'):
                 names.add(k[len(prefix):])
             out.append((names, c))
         return out
